@@ -1,10 +1,223 @@
-/- Driver for `kind = "c15"` (and `"c15:…"`) cases. -/
+/- Driver for `kind = "c15:kdf" | "c15:box" | "c15:seal"` cases: runs `Askar.Ecdh` (Model/Ecdh.lean) with the executable
+   specifications of the third-party primitives as instance: X25519 (RFC 7748), short-Weierstrass scalar multiplication
+   (SEC 1), SHA-256 (FIPS 180-4), HSalsa20 / XSalsa20-Poly1305 (NaCl), BLAKE2b (RFC 7693). -/
 import Driver.Common
+import AskarModel.Model.Ecdh
+import AskarModel.Crypto.Sha2
+import AskarModel.Crypto.Ec
+import AskarModel.Crypto.X25519
+import AskarModel.Crypto.NaclBox
 
 open Lean
 
 namespace Driver.C15
+open Askar Askar.Ecdh
 
-def runCase (_j : Json) : Json := jerr "not implemented"
+def ecCurve : Curve → Option Ec.Curve
+  | .p256 => some Ec.p256
+  | .p384 => some Ec.p384
+  | .k256 => some Ec.k256
+  | .x25519 => none
+
+/-- x-coordinate of `sk · P`, `P = x ‖ y` affine -/
+def ecDh (c : Ec.Curve) (sk pk : Bytes) : Bytes :=
+  let x := Ec.beNat (pk.take c.len)
+  let y := Ec.beNat (pk.drop c.len)
+  match c.toAffine (c.mulAux x y 800 (Ec.beNat sk)) with
+  | some (zx, _) => Ec.natBE c.len zx
+  | none => []
+
+def realDh : DhOps where
+  pub c sk := match ecCurve c with
+    | none => Crypto.X25519.pubOf sk
+    | some ec => (ec.pubOf sk).getD []
+  dh c sk pk := match ecCurve c with
+    | none => Crypto.X25519.x25519 sk pk
+    | some ec => ecDh ec sk pk
+
+def realBox : BoxOps where
+  pub := Crypto.X25519.pubOf
+  beforenm := Crypto.NaclBox.boxKey
+  sealBox := Crypto.NaclBox.secretboxSeal
+  openBox := Crypto.NaclBox.secretboxOpen
+  nonceHash := Crypto.NaclBox.blake2b 24
+
+def sha256 : Bytes → Bytes := Crypto.Sha2.sha256L
+
+def curveOf : String → Option Curve
+  | "x25519" => some .x25519 | "p256" => some .p256 | "p384" => some .p384 | "k256" => some .k256
+  | _ => none
+
+def targetOf : String → Target
+  | "a128gcm" => .a128gcm | "a256gcm" => .a256gcm | "a128cbchs256" => .a128cbcHs256 | "a256cbchs512" => .a256cbcHs512
+  | "a128kw" => .a128kw | "a256kw" => .a256kw | "c20p" => .c20p | "xc20p" => .xc20p
+  | _ => .notSymmetric
+
+/-- (key as its owner holds it, key as everybody else sees it) -/
+def keyOf (j : Json) : Key × Key :=
+  match curveOf (str! j "c") with
+  | none => (⟨.other, [], some (value! j "sk")⟩, ⟨.other, [], none⟩)
+  | some c =>
+    match getD? j "sk" with
+    | some _ =>
+      let sk := value! j "sk"
+      (Key.full realDh c sk, Key.public realDh c sk)
+    | none =>
+      let raw := value! j "pk"
+      let pk := match ecCurve c with
+        | none => raw
+        | some ec => (ec.fromSec1 raw).getD []
+      (⟨.dh c, pk, none⟩, ⟨.dh c, pk, none⟩)
+
+def jres (r : Res Bytes) (f : Bytes → Json := jhex) : Json :=
+  match r with
+  | .ok b => f b
+  | .err e => jerr e.toPublic.name
+  | .panic => Json.mkObj [("panic", .str "model")]
+
+structure KdfArgs where
+  mode : String
+  target : Target
+  eph : Json
+  snd : Json
+  rcp : Json
+  alg : Bytes
+  apu : Bytes
+  apv : Bytes
+  tag : Bytes
+
+def KdfArgs.of (j : Json) : KdfArgs :=
+  { mode := str! j "mode", target := targetOf (str! j "target"),
+    eph := (getD? j "eph").getD .null, snd := (getD? j "snd").getD .null, rcp := (getD? j "rcp").getD .null,
+    alg := value! j "alg", apu := value! j "apu", apv := value! j "apv", tag := value! j "tag" }
+
+def KdfArgs.perturb (a : KdfArgs) (p : Json) : KdfArgs :=
+  match str! p "f" with
+  | "alg" => { a with alg := value! p "v" }
+  | "apu" => { a with apu := value! p "v" }
+  | "apv" => { a with apv := value! p "v" }
+  | "tag" => { a with tag := value! p "v" }
+  | "eph" => { a with eph := (getD? p "v").getD .null }
+  | "snd" => { a with snd := (getD? p "v").getD .null }
+  | "rcp" => { a with rcp := (getD? p "v").getD .null }
+  | "target" => { a with target := targetOf (str! p "v") }
+  | _ => a
+
+def KdfArgs.derive (a : KdfArgs) (receive : Bool) : Res Bytes :=
+  let (ephF, ephP) := keyOf a.eph
+  let (rcpF, rcpP) := keyOf a.rcp
+  let (eph, rcp) := if receive then (ephP, rcpF) else (ephF, rcpP)
+  if a.mode == "1pu" then
+    let (sndF, sndP) := keyOf a.snd
+    let snd := if receive then sndP else sndF
+    deriveKeyEcdh1pu realDh sha256 a.target eph snd rcp a.alg a.apu a.apv a.tag receive
+  else
+    deriveKeyEcdhEs realDh sha256 a.target eph rcp a.alg a.apu a.apv receive
+
+def KdfArgs.dh (a : KdfArgs) (receive : Bool) : Res (List Bytes) := do
+  let (ephF, ephP) := keyOf a.eph
+  let (rcpF, rcpP) := keyOf a.rcp
+  let ze ← if receive then keyExchange realDh rcpF ephP else keyExchange realDh ephF rcpP
+  if a.mode == "1pu" then
+    let (sndF, sndP) := keyOf a.snd
+    let zs ← if receive then keyExchange realDh rcpF sndP else keyExchange realDh sndF rcpP
+    pure [ze, zs]
+  else pure [ze]
+
+def jz (r : Res (List Bytes)) : Json :=
+  match r with
+  | .ok zs => .arr (zs.map jhex).toArray
+  | .err e => jerr e.toPublic.name
+  | .panic => Json.mkObj [("panic", .str "model")]
+
+def runKdf (j : Json) : Json :=
+  let a := KdfArgs.of j
+  let kx := toKeyExchange realDh a.target (keyOf a.eph).1 (keyOf a.rcp).2
+  Json.mkObj [
+    ("send", jres (a.derive false)), ("recv", jres (a.derive true)),
+    ("z_send", jz (a.dh false)), ("z_recv", jz (a.dh true)), ("kx", jres kx),
+    ("perturbed", .arr ((arr! j "perturb").map fun p => jres ((a.perturb p).derive false)).toArray)]
+
+def flipBit (b : Bytes) (bit : Nat) : Bytes :=
+  if b.isEmpty then b
+  else
+    let i := bit % (b.length * 8)
+    b.set (i / 8) (b.getD (i / 8) 0 ^^^ UInt8.ofNat (2 ^ (i % 8)))
+
+/-- the harness's `apply_mut`: flip, take, append, raw on the ciphertext; nflip, nonce on the nonce -/
+def applyMut (m : Json) (ct nonce : Bytes) : Bytes × Bytes :=
+  let c := match natOpt m "flip" with | some b => flipBit ct b | none => ct
+  let c := match natOpt m "take" with | some k => c.take k | none => c
+  let c := match getD? m "append" with | some _ => c ++ value! m "append" | none => c
+  let c := match getD? m "raw" with | some _ => value! m "raw" | none => c
+  let n := match natOpt m "nflip" with | some b => flipBit nonce b | none => nonce
+  let n := match getD? m "nonce" with | some _ => value! m "nonce" | none => n
+  (c, n)
+
+def isOk : Res Bytes → Bool
+  | .ok _ => true
+  | _ => false
+
+def okBytes : Res Bytes → Bytes
+  | .ok b => b
+  | _ => []
+
+def runBox (j : Json) : Json :=
+  let msg := value! j "msg"
+  let nonce := value! j "nonce"
+  let sndJ := (getD? j "snd").getD .null
+  let rcpJ := (getD? j "rcp").getD .null
+  let boxed := envCryptoBox realBox (keyOf rcpJ).2 (keyOf sndJ).1 msg nonce
+  let ct := okBytes boxed
+  let openWith (rcp snd : Json) (c n : Bytes) : Res Bytes := envCryptoBoxOpen realBox (keyOf rcp).1 (keyOf snd).2 c n
+  let muts := (arr! j "muts").map fun m =>
+    let (c, n) := applyMut m ct nonce
+    jres (openWith ((getD? m "rcp").getD rcpJ) ((getD? m "snd").getD sndJ) c n) jvalue
+  let allbits : Json :=
+    if bool! j "allbits" && isOk boxed then
+      .arr (((List.range (ct.length * 8)).filter fun bit => isOk (openWith rcpJ sndJ (flipBit ct bit) nonce)).map jnat).toArray
+    else .null
+  Json.mkObj [("box", jres boxed jvalue), ("open", jres (openWith rcpJ sndJ ct nonce) jvalue), ("muts", .arr muts.toArray),
+    ("allbits", allbits)]
+
+def runSeal (j : Json) : Json :=
+  let msg := value! j "msg"
+  let ephJ := (getD? j "eph").getD .null
+  let rcpJ := (getD? j "rcp").getD .null
+  let (rcpF, rcpP) := keyOf rcpJ
+  let ephSk : Bytes := match getD? j "eph" with | some _ => value! ephJ "sk" | none => List.replicate 32 1
+  let sealed : Res Bytes :=
+    match getD? j "ct" with
+    | some _ => .ok (value! j "ct")
+    | none => envCryptoBoxSeal realBox ephSk rcpP msg
+  let ct := okBytes sealed
+  let openWith (rcp : Json) (c : Bytes) : Res Bytes := envCryptoBoxSealOpen realBox (keyOf rcp).1 c
+  let random : Json :=
+    match envCryptoBoxSeal realBox ephSk rcpP msg with
+    | .ok s =>
+      match envCryptoBoxSealOpen realBox rcpF s with
+      | .ok o =>
+        let epk := s.take 32
+        match envCryptoBoxOpen realBox rcpF ⟨.dh .x25519, epk, none⟩ (s.drop 32) (Ecdh.sealNonce realBox epk rcpF.pub) with
+        | .ok p => Json.mkObj [("len", jnat s.length), ("open", jvalue o), ("parts", jvalue p)]
+        | r => jres r
+      | r => jres r
+    | r => jres r
+  let muts := (arr! j "muts").map fun m =>
+    let (c, _) := applyMut m ct []
+    jres (openWith ((getD? m "rcp").getD rcpJ) c) jvalue
+  let allbits : Json :=
+    if bool! j "allbits" && isOk sealed then
+      .arr (((List.range (ct.length * 8)).filter fun bit => isOk (openWith rcpJ (flipBit ct bit))).map jnat).toArray
+    else .null
+  Json.mkObj [("sealed", jres sealed jvalue), ("open", jres (openWith rcpJ ct) jvalue), ("random", random),
+    ("muts", .arr muts.toArray), ("allbits", allbits)]
+
+def runCase (j : Json) : Json :=
+  match str! j "kind" with
+  | "c15:kdf" => runKdf j
+  | "c15:box" => runBox j
+  | "c15:seal" => runSeal j
+  | k => jerr ("unknown kind " ++ k)
 
 end Driver.C15
